@@ -51,6 +51,23 @@ def coherence(t):
     return None, d, pma
 
 
+def log_equals_reference(t):
+    """Does the object's six-vector carry exactly the logarithm the vendored reference library computes for its matrix?
+    (True: whatever is wrong with the pair is the reference algorithm's own inaccuracy at pi - the known finding KF1;
+    False: the library does something else there.)"""
+    try:
+        from vendor import modern_robotics_ref as ref
+        R = np.array(t.TM, float)[:3, :3]
+        w = ref.so3ToVec(ref.MatrixLog3(R))
+        return bool(np.abs(np.asarray(t.TAA, float).reshape(-1)[3:6] - np.asarray(w, float).reshape(-1)).max() <= 1e-9)
+    except Exception:
+        return False
+
+
+def _flag(t, c, pma):
+    return log_equals_reference(t) if (c and pma is not None and pma < 3e-5) else None
+
+
 class Spec:
     def __init__(self, seed=0):
         from basic_robotics.general import tm, fsr
@@ -74,7 +91,7 @@ class Spec:
             def g(t):
                 r = f(t)
                 c, d, pma = coherence(t)
-                return r, {"recv": [c, d, pma]}
+                return r, {"recv": [c, d, pma, _flag(t, c, pma)]}
             return g
 
         def quat(w):
@@ -164,9 +181,51 @@ class Spec:
                     before = (np.array(other.TM, float).copy(), np.array(other.TAA, float).copy())
                     W(t)
                     c, d, pma = coherence(t)
-                    return other, {"recv": [c, d, pma],
+                    return other, {"recv": [c, d, pma, _flag(t, c, pma)],
                                    "reached": max(float(np.abs(other.TM - before[0]).max()), float(np.abs(other.TAA - before[1]).max()))}
                 ops.append(Op("derive_then_write_to_source", (dn, wn), f_ws))
+        # exact half turns about the coordinate axes, arriving through the matrix side (an exactly symmetric rotation block)
+        for ax in range(3):
+            Rh = -np.eye(3)
+            Rh[ax, ax] = 1.0
+            for p in POS:
+                Xh = np.eye(4)
+                Xh[:3, :3] = Rh
+                Xh[:3, 3] = p
+                qh = [0.0, 0.0, 0.0, 0.0]
+                qh[ax] = 1.0
+
+                def f_sTM_half(t, Xh=Xh):
+                    t.sTM(Xh.copy())
+                    return np.abs(t.gTM() - Xh).max()
+                ops.append(Op("sTM_half_turn", (ax, list(p)), mut(f_sTM_half)))
+                ops.append(Op("ctor4x4_half_turn", (ax, list(p)), fun(lambda t, Xh=Xh: tm(Xh.copy()))))
+                ops.append(Op("ctor7_half_turn", (ax, list(p)), fun(lambda t, p=p, qh=qh: tm(list(p) + list(qh)))))
+
+            def f_setquat_half(t, qh=qh):
+                t.setQuat(np.array(qh, float))
+                q2 = t.getQuat()
+                return min(np.abs(q2 - np.array(qh)).max(), np.abs(q2 + np.array(qh)).max())
+            ops.append(Op("setQuat_half_turn", ax, mut(f_setquat_half)))
+        # a matrix-side write followed by writing the OLD rotation vector back through the six-vector side: the object is
+        # where it was (a conversion remembered for 'the vector I exponentiated last' is stale after the matrix-side write)
+        for mname in ("setQuat", "sTM"):
+            for sname in ("slice", "sTAA", "items"):
+                def f_back(t, mname=mname, sname=sname):
+                    old = np.array(t.TAA, float).reshape(6).copy()
+                    if mname == "setQuat":
+                        t.setQuat(quat((0.5, -0.2, 0.7)))
+                    else:
+                        t.sTM(se3.T_from_taa(list(old[:3]) + [0.5, -0.2, 0.7]))
+                    if sname == "slice":
+                        t[3:6] = list(old[3:])
+                    elif sname == "sTAA":
+                        t.sTAA(old.reshape(6, 1).copy())
+                    else:
+                        for i in (3, 4, 5):
+                            t[i] = float(old[i])
+                    return np.abs(np.array(t.TAA, float).reshape(6)[3:] - old[3:]).max()
+                ops.append(Op("matrix_side_write_then_restore_vector", (mname, sname), mut(f_back)))
         for w in RV:
             ops.append(Op("ctor3list", w, fun(lambda t, w=w: tm(list(w)))))
             ops.append(Op("ctor3arr", w, fun(lambda t, w=w: tm(np.array(w)))))
@@ -209,11 +268,17 @@ class Spec:
                     return max(abs(t[i] - a), abs(t[i + 6] - a))
                 ops.append(Op("setitem_neg", (i, a), mut(f_setitem_neg)))
         slices = {"3:": slice(3, None), "-3:": slice(-3, None), ":3": slice(None, 3), "0:-3": slice(0, -3),
-                  "3:-1": slice(3, -1), "-3:-1": slice(-3, -1), "-6:-3": slice(-6, -3), "4:": slice(4, None), "1:4": slice(1, 4)}
+                  "3:-1": slice(3, -1), "-3:-1": slice(-3, -1), "-6:-3": slice(-6, -3), "4:": slice(4, None), "1:4": slice(1, 4),
+                  ":": slice(None, None), "0:": slice(0, None), "1:": slice(1, None), "2:": slice(2, None), "::2": slice(None, None, 2),
+                  "1::2": slice(1, None, 2), ":-1": slice(None, -1), "2:5": slice(2, 5)}
         for sname, sl in slices.items():
             width = len(range(6)[sl])
             for w in RV[1::4]:
-                vals = list(w)[:width] if width <= 3 else list(w) + [0.0] * (width - 3)
+                # (values in entry order; for slices wider than three the rotation entries get the palette vector)
+                if width <= 3:
+                    vals = list(w)[:width]
+                else:
+                    vals = [0.4, -1.5, 2.5, w[0], w[1], w[2]][6 - width:] if sl.step in (None, 1) and sl.stop is None else list(w) + [0.0] * (width - 3)
                 def f_slice(t, sl=sl, vals=vals):
                     t[sl] = list(vals)
                     return float(np.abs(t[sl].reshape(-1) - np.array(vals)).max())
@@ -280,7 +345,8 @@ class Spec:
             return [{"clause": "result_type", "observed": type(st).__name__}]
         c, d, pma = coherence(st)
         if c:
-            bad.append({"clause": c, "observed": d, "tolerance": TOL, "quantities": {"pi_minus_angle": pma}})
+            bad.append({"clause": c, "observed": d, "tolerance": TOL, "quantities": {"pi_minus_angle": pma},
+                        "flags": {"log_equals_reference": _flag(st, c, pma)}})
         if op.name.startswith("ctor6_") or op.name.startswith("ctor4x4_then"):
             E = se3.T_from_taa(op.arg)
             e = float(np.abs(st.TM - E).max()) if isinstance(getattr(st, "TM", None), np.ndarray) and st.TM.shape == (4, 4) else float("inf")
@@ -290,9 +356,10 @@ class Spec:
             if not (max(e, e2) <= TOL * max(1.0, float(np.abs(np.array(op.arg[:3])).max()))):
                 bad.append({"clause": "follows_callers_array", "observed": [e, e2], "tolerance": TOL, "quantities": {"pi_minus_angle": pma}})
         if "recv" in obs and obs["recv"][0]:
-            c2, d2, pma2 = obs["recv"]
+            c2, d2, pma2 = obs["recv"][:3]
             bad.append({"clause": "receiver_" + c2, "observed": d2, "tolerance": TOL,
-                        "quantities": {"pi_minus_angle": pma2}})
+                        "quantities": {"pi_minus_angle": pma2},
+                        "flags": {"log_equals_reference": obs["recv"][3] if len(obs["recv"]) > 3 else None}})
         if not (obs.get("reached", 0.0) <= 1e-12):
             bad.append({"clause": "write_reached_other_object", "observed": obs["reached"], "tolerance": 1e-12})
         if not (obs.get("wr", 0.0) <= 1e-9):
